@@ -109,16 +109,15 @@ def make_pyvis_net(
         network_kwargs = {"cdn_resources": "local"}
     net = network.Network(**network_kwargs)
     verts = list(uni.vertices)
+    # index of each member vertex, by identity, for fast lookup later on
+    index = {}
     for i, vert in enumerate(verts):
         if rvfunc:
             net.add_node(i, label=rvfunc(vert))
         else:
             net.add_node(i, label=hex(id(vert)))
 
-        # store a temporary attribute on the object that we will use for fast
-        # lookup of this vertex's index later on
-        # pylint: disable-next=protected-access
-        vert.__make_pyvis_net_i = i
+        index[id(vert)] = i
 
     for i, vert in enumerate(verts):
         for edge in vert.links:
@@ -128,11 +127,9 @@ def make_pyvis_net(
                 continue
 
             other = edge.other(vert)
-            try:
-                # this is *much* faster than something like verts.index(other)
-                # pylint: disable-next=protected-access
-                j = other.__make_pyvis_net_i
-            except AttributeError:
+            # this is *much* faster than something like verts.index(other)
+            j = index.get(id(other))
+            if j is None:
                 # not a member
                 continue
 
@@ -159,10 +156,6 @@ def make_pyvis_net(
                 # the effect of this is that the node we're trying to link to
                 # doesn't exist, so skip it.
                 continue
-
-    # make sure we remove our temporary attribute
-    for vert in verts:
-        del vert.__make_pyvis_net_i
 
     return net
 
